@@ -3,6 +3,7 @@ Spec: spec/Decoder.tla (step-counting reference decoder of Wire.tla, generator m
 strings, Bounded invariant, deviation ZeroOK).  Binding: the real decoder runs under a call counter."""
 import random
 import sys
+import time
 
 from . import fakes  # noqa: F401  (installs the quiet log observer, repo path)
 from . import core, tlc, refwire, wirecodec as wc
@@ -281,6 +282,13 @@ def bus_isolation(chk, rng, thorough):
         for mtype in (2, 3):
             inputs.append(('header field %d holding a %s (message type %d)' % (code, odd.sig if hasattr(odd, 'sig') else '?', mtype),
                            odd_header(mtype, sorted(fl.items()))))
+    # header strings that are nearly what they should be: a long run of legal characters and one that is not
+    for n in (26, 40):
+        for mtype in (1, 4):
+            inputs.append(('path of %d legal characters and one illegal' % n, refwire.msg(
+                mtype, 87, [('path', '/' + 'a' * n + '!'), ('interface', 'org.ex.H'), ('member', 'Hostile'), ('destination', vname)])))
+            inputs.append(('interface of %d legal characters and one illegal' % n, refwire.msg(
+                mtype, 87, [('path', '/h'), ('interface', 'org.' + 'a' * n + '!'), ('member', 'Hostile'), ('destination', vname)])))
     inputs += rng.sample(muts, min(len(muts), 400 if thorough else 80))
     assert probe(0), 'probe does not arrive on the undisturbed bus'
     recs, names = [], []
@@ -294,7 +302,9 @@ def bus_isolation(chk, rng, thorough):
         net.run()
         bp = net.clients[h][2]
         # everything runs under the call counter: a decoder that loops must end as a verdict, not hang the check
+        t0 = time.process_time()
         out, calls, r = counted(lambda: bp.dataReceived(raw), 40 * bound(len(raw), 64))
+        spent = time.process_time() - t0
         if out != 'value':           # Twisted drops the connection of the peer that sent it
             net.clients[h][3].loseConnection()
             bp.connectionLost(fakes.conn_lost())
@@ -306,6 +316,9 @@ def bus_isolation(chk, rng, thorough):
             how = 'probe delivered' if ok else 'probe lost'
         if out == 'budget':
             ok, how = False, 'the bus spent more than %d calls on %d hostile bytes' % (40 * bound(len(raw), 64), len(raw))
+        elif spent > 2.0 + 0.005 * (len(raw) + 64):
+            # work hidden inside single C calls (a regular expression that backtracks): the clock sees it
+            ok, how = False, 'the bus spent %.1f s of CPU on %d hostile bytes' % (spent, len(raw))
         recs.append({'before': {'outcome': 'value', 'digest': 'probe delivered'},
                      'after': {'outcome': 'value' if ok else 'exception', 'digest': how}})
         names.append(name)
